@@ -35,7 +35,7 @@ ASSUMPTIONS = [
     "nested functions / lambdas that differ only in closure values have the same source and are outside the statement",
 ]
 SHARDS = {"quick": 12, "thorough": 14}
-FLOORS = {"quick": {"histories": 900, "calls_checked": 3000, "old_version_calls": 900, "idreuse_achieved": 5, "fresh_process_sessions": 100, "unchanged_sessions_checked": 20},
+FLOORS = {"quick": {"histories": 800, "calls_checked": 2500, "old_version_calls": 700, "idreuse_achieved": 5, "fresh_process_sessions": 60, "unchanged_sessions_checked": 15},
           "thorough": {"idreuse_achieved": 50, "histories": 30000, "calls_checked": 100000, "old_version_calls": 30000, "fresh_process_sessions": 2000, "unchanged_sessions_checked": 400}}
 
 EXEC = []
